@@ -23,6 +23,20 @@ def call_build(cfg):
     X = None if ncol == 0 else numpy.array(
         [[100 * (c + 1) + t for c in range(ncol)] for t in range(n)], dtype=numpy.float64)
     w = (1000 + numpy.arange(n, dtype=numpy.float64)) if cfg["hasW"] else None
+    # how the caller holds the series is its business: the same values as a column of a table / every other cell of a
+    # buffer (non-contiguous views whose neighbours in memory are decoys from the future)
+    layout = (n + past + d2 + ncol) % 3
+    if layout == 1:
+        table = numpy.column_stack([y, 7000 + y[::-1], 8000 + y])
+        y = table[:, 0]
+        if w is not None:
+            w = numpy.column_stack([9000 - w, w])[:, 1]
+    elif layout == 2:
+        raw = numpy.empty(2 * n, dtype=numpy.float64)
+        raw[0::2], raw[1::2] = y, 7000 + y[::-1]
+        y = raw[::2]
+        if X is not None:
+            X = numpy.asfortranarray(X)
     y0, X0, w0 = y.copy(), (None if X is None else X.copy()), (None if w is None else w.copy())
     nx, ny, nw = build_ts_X_y(model, X, y, w, same_rows=cfg["same"])
     untouched = numpy.array_equal(y, y0) and (X is None or numpy.array_equal(X, X0)) and \
